@@ -44,8 +44,9 @@ RULE = ("random scratch roots: env.d files (several, with skipped names) setting
         "replacements, install / replace / uninstall engines with the ebuild config-protect triggers registered, plain and unnormalised offsets; non-trivial = at "
         "least one file is protected-and-differing and at least one file is merged or removed normally")
 
-DIRS = ["/etc", "/etc/app", "/etc/app/conf.d", "/opt/cfg", "/usr/share/x", "/var/lib/y", "/etc/ign", "/opt/cfg/sub"]
-NAMES = ["foo", "bar.conf", "a b", ".keep", ".keep_x-0", "é", "x_y"]
+DIRS = ["/etc", "/etc/app", "/etc/app/conf.d", "/opt/cfg", "/usr/share/x", "/var/lib/y", "/etc/ign", "/opt/cfg/sub", "/etc/w[0-9]", "/opt/c*g/sub"]
+# file names from a hostile alphabet: glob / regex / shell metacharacters, spaces, leading dots and dashes
+NAMES = ["foo", "bar.conf", "a b", ".keep", ".keep_x-0", "é", "x_y", "wg[0].conf", "a*b", "q?.conf", "[ab]", "x[y", "p+q(r)", "d$l^r", "b\\s", "{b,c}", "-n", "~t", "._cfg0000_nest", "c.d|e"]
 CONTENTS = ["alpha\n", "beta\n", "gamma\n", "", "delta\n"]
 
 
@@ -55,7 +56,7 @@ def valid_envd_name(x):
 
 def gen_case(rng):
     mode = rng.choice(["install", "install", "install", "replace", "uninstall"])
-    protects = [rng.choice(["/opt/cfg", "/opt/cfg/", "/usr/share/x", "/var/lib", "/etc/app", "/opt//cfg/.", "/opt"]) for _ in range(rng.choice([0, 0, 1, 1, 2]))]
+    protects = [rng.choice(["/opt/cfg", "/opt/cfg/", "/usr/share/x", "/var/lib", "/etc/app", "/opt//cfg/.", "/opt", "/opt/c*g", "/opt/c*g/sub"]) for _ in range(rng.choice([0, 0, 1, 1, 2]))]
     masks = [rng.choice(["/etc/app", "/etc/app/conf.d", "/opt/cfg/sub", "/etc/ign/", "/usr/share", "/etc/ap"]) for _ in range(rng.choice([0, 0, 1, 1, 2]))]
     ignores = [rng.choice(["/etc/foo", "/foo", "/etc/ign", "/etc/app/*", "/etc/*.conf", "*/bar.conf", "/opt/cfg/?oo", "/etc/ign/", "/etc/app/conf.d", "foo", "/etc/a*"])
                for _ in range(rng.choice([0, 0, 0, 1, 1, 2]))]
@@ -115,7 +116,7 @@ def gen_case(rng):
                 old[p] = rng.choice([c, rng.choice(CONTENTS)])
     # pending updates next to some of the incoming files
     for p, (k, c) in list(image.items()):
-        if k != "f" or rng.random() < 0.45:
+        if k != "f" or rng.random() < 0.35:
             continue
         d, b = posixpath.split(p)
         for _ in range(rng.randint(1, 3)):
@@ -151,6 +152,12 @@ def C(mode, envd, live, image=None, old=None, **kw):
 
 
 CORPUS = [
+    C("install", [], {"/etc/wg[0].conf": "old\n", "/etc/._cfg0000_wg[0].conf": "pending\n", "/etc/._cfg0002_wg[0].conf": "new\n", "/etc/._cfg0001_wg0.conf": "neighbour\n"},
+      {"/etc/wg[0].conf": ["f", "new\n"]}),
+    C("install", [], {"/etc/a*b": "old\n", "/etc/._cfg0000_a*b": "p0\n", "/etc/._cfg0000_axb": "other file\n", "/etc/q?.conf": "old\n", "/etc/._cfg0003_q?.conf": "p3\n"},
+      {"/etc/a*b": ["f", "new\n"], "/etc/q?.conf": ["f", "new\n"], "/etc/axb": ["f", "n\n"]}),
+    C("install", [("50x", {"CONFIG_PROTECT": ["/opt/c*g"]})], {"/opt/c*g/sub/x[y": "old\n", "/opt/c*g/sub/._cfg0000_x[y": "p\n", "/opt/cfg/sub/x[y": "old\n"},
+      {"/opt/c*g/sub/x[y": ["f", "new\n"], "/opt/cfg/sub/x[y": ["f", "new\n"]}),
     # offset root (fixed: nothing was protected under an offset)
     C("install", [], {"/etc/foo": "old\n"}, {"/etc/foo": ["f", "new\n"], "/usr/bin/x": ["f", "x\n"]}),
     C("install", [], {"/etc/foo": "same\n"}, {"/etc/foo": ["f", "same\n"]}),
@@ -548,10 +555,10 @@ def run(ctx):
     cases = [dict(c) for c in CORPUS]
     if ctx.replay_cases:
         cases = [c for c in ctx.replay_cases if "envd" in c] + cases
-    for _ in range(ctx.n(500, 8000)):
+    for _ in range(ctx.n(400, 8000)):
         cases.append(gen_case(rng))
     # runs with the engine's default plugins spawn ldconfig and are slow: keep a bounded number of them
-    budget = ctx.n(8, 60)
+    budget = ctx.n(5, 60)
     for c in cases:
         if c["plugins"]:
             if budget <= 0:
